@@ -171,7 +171,7 @@ class Gen:
                 out += [(depth, 'ELSE')] + self.block(sc.child(), depth + 1, budget)
             return out
         if c < 0.60 and not deep:
-            cnt = r.choice(['0', '1', '2', '3', '4', self.int_expr(sc, 2)])
+            cnt = r.choice(['0', '1', '2', '3', '4', '(' + self.int_expr(sc, 2) + ')%5'])      # an evaluated count, kept small: nested loops over thousands of rounds only cost time-outs
             if self.chance(0.6):
                 v = self.name(); s2 = sc.child(loop=True); s2.vars[v] = 'int'
                 return [(depth, f'{r.choice(["REPEAT", "FOR", "repeat"])} {v},{cnt}')] + self.block(s2, depth + 1, budget)
